@@ -271,7 +271,10 @@ def run(ctx):
     # non-numeric text in a range: ignored like any other text --------------
     if ctx.shard in (5, 6) or thorough:
         for t_ in ('Infinity', 'inf', '-inf', '1e999', '-1E400', 'nan',
-                   'NaN'):
+                   'NaN',
+                   # characters str.isdigit() accepts and int() does not
+                   '\u00b2', '\u2075\u00b3', '\u2082', '\u2460', 'm\u00b2',
+                   '1\u00b2'):
             cells_ = {'A1': 1.5, 'A2': t_, 'A3': 2.25, 'B1': 'abc', 'B2': 4.0,
                       'B3': t_}
             probes = {'=SUM(A1:B3)': 7.75, '=SUM(A1:A3)+SUM(B1:B3)': 7.75,
